@@ -424,7 +424,7 @@ func c05Scenarios(tier string) []Scenario {
 func init() {
 	register(&Property{ID: "C05", Level: "model_checking",
 		Technique: "reference-model conformance over the full (fid state x request) product, every pair executed on the real server; visibility clause by stateless model checking under the controlled scheduler",
-		Rule:      "fid states {absent, dir unopened/open, file unopened/open with modes 0,1,2,3,OWRITE|OTRUNC,OREAD|ORCLOSE,ORDWR|OTRUNC, created file/dir (also with the DMAUTH, DMEXCL, DMTMP, DMMOUNT, DMAPPEND perm bits), reached by in-place/partial/failed walks, after refused or failed open/create, auth fid} x requests {walk names x newfid, open 4 modes x 3 flag sets, create 8 perm classes x 4 modes, read/write with counts 0,1,L-1,L,L+1,2^31,2^32-24..2^32-1, stat/wstat/clunk/remove with implementation success/error, attach/auth with every afid kind and AuthCheck verdict} x dialect x AuthOps (refusing with *go9p.Error, errors.New, syscall.Errno and wrapped errors) x msize (quick 64,256,8216; thorough also 48,1024,65560); three-valued oracle (must refuse / must forward / either); arguments of a request held by the implementation while 1..8*msize/11 further requests arrive one per segment; visibility pairs: all schedules with at most P preemptions. states = distinct (request kind, verdict, rule) classes exercised",
+		Rule:      "fid states {absent, dir unopened/open, file unopened/open with modes 0,1,2,3,OWRITE|OTRUNC,OREAD|ORCLOSE,ORDWR|OTRUNC, created file/dir (also with the DMAUTH, DMEXCL, DMTMP, DMMOUNT, DMAPPEND perm bits), reached by in-place/partial/failed walks, after refused or failed open/create, auth fid} x requests {walk names x newfid, open 4 modes x 3 flag sets, create 8 perm classes x 4 modes, read/write with counts 0,1,L-1,L,L+1,2^31,2^32-24..2^32-1, stat/wstat/clunk/remove with implementation success/error, attach/auth with every afid kind and AuthCheck verdict} x dialect x AuthOps (refusing with *go9p.Error, errors.New, syscall.Errno and wrapped errors) x msize (quick 64,256,8216; thorough also 48,1024,65560); three-valued oracle (must refuse / must forward / either); arguments of a request held by the implementation while 1..8*msize/11 further requests arrive one per segment; visibility pairs: all schedules with at most P preemptions. states = distinct (request kind, verdict, rule) classes exercised ; the products repeated for implementations that advertise an iounit of their own (above and below what the connection carries)",
 		Assumptions: []string{"the reference model is a correct reading of the rules the property lists; corners it does not settle are accepted both ways", "product pairs run on the default schedule"},
 		Scenarios:   c05Scenarios, QuickS: 100, ThoroughS: 900})
 }
